@@ -628,6 +628,82 @@ def rule_E5(ctx):
     ctx.analysed(f)
 
 
+PER_MUTATION_COLUMNS = {"mutation_id", "cluster_id", "outlier_prob", "chrom"}
+
+
+def rule_E6(ctx):
+    """"Multiplied by cluster size": the size is value_counts() of cluster_id over the cluster table, which is the
+    number of member mutations only if that table has one row per mutation.  Cluster files in the PyClone-VI
+    layout carry one row per (mutation, sample), so the table must be de-duplicated on per-mutation columns: on
+    every path _setup_cluster_df returns drop_duplicates() of a projection onto per-mutation columns (or
+    drop_duplicates(subset=<per-mutation columns>)), mutation_id among them."""
+    from ..termflow import key_atom
+
+    prog = ctx.prog
+    ctx.rule("E6", "cluster size counts mutations: the cluster table is de-duplicated on per-mutation columns (mutation_id among them) on every path before cluster_id is value-counted", 3)
+    f = prog.fn("pyclone._setup_cluster_df")
+    ex = extract(prog, f, no_inline=["_assign_out_prob"])
+    if ex.result is None:
+        raise AnalysisError("_setup_cluster_df returns nothing")
+    a = ex.result.as_atom()
+    alts = [v for _, v in a[1]] if a is not None and a[0] == "cond" else [ex.result.key()]
+
+    def columns(k):
+        if isinstance(k, tuple) and k and k[0] == "list":
+            out = []
+            for c in k[1]:
+                if not (isinstance(c, tuple) and c[0] == "const" and isinstance(c[1], str)):
+                    return None
+                out.append(c[1].strip("'\""))
+            return out
+        return None
+
+    seen = set()
+    for vk in alts:
+        at = key_atom(vk)
+        why = None
+        cols = None
+        if at is None:
+            raise AnalysisError("E6: unrecognised cluster table %r" % (vk,))
+        if at[0] == "mcall" and at[1] == "drop_duplicates":
+            subset = dict(at[4]).get("subset") if at[4] else (at[3][0] if at[3] else None)
+            if subset is not None:
+                cols = columns(subset)
+            else:
+                r = key_atom(at[2])
+                if r is not None and r[0] == "sub":
+                    cols = columns(r[2])
+                if cols is None:
+                    why = "drop_duplicates() runs on the whole cluster file (%s), per-sample columns included: a file with one row per (mutation, sample) keeps one row per sample, and every cluster size is multiplied by the number of samples" % show_key(at[2])[:120]
+        elif at[0] == "sub":
+            inner = key_atom(at[1])
+            if inner is not None and inner[0] == "mcall" and inner[1] == "drop_duplicates":
+                why = "the table is de-duplicated on all columns of the cluster file and projected onto %s afterwards: rows that differ only in per-sample columns survive, and every cluster size is multiplied by the number of samples" % (columns(at[2]),)
+            else:
+                why = "the cluster table (%s) is not de-duplicated: a file with one row per (mutation, sample) inflates every cluster size" % show_key(vk)[:120]
+        else:
+            raise AnalysisError("E6: unrecognised cluster table %s" % show_key(vk)[:160])
+        if why is None:
+            if cols is None:
+                raise AnalysisError("E6: the de-duplication columns are not literal")
+            if "mutation_id" not in cols:
+                why = "the table is de-duplicated on %s, which does not contain mutation_id: members of one cluster collapse into one row" % cols
+            elif not set(cols) <= PER_MUTATION_COLUMNS:
+                why = "the table is de-duplicated on %s; %s are not per-mutation columns, so one mutation can keep several rows" % (cols, sorted(set(cols) - PER_MUTATION_COLUMNS))
+        sig = (why, tuple(cols or ()))
+        if sig in seen:
+            ctx.ok("E6", "_setup_cluster_df: another path returns the same shape", f.where())
+            continue
+        seen.add(sig)
+        ctx.check(why is None, "E6", "_setup_cluster_df: one row per mutation (de-duplicated on %s)" % (cols,), f.where(), why or "", construct=f.qualname, stmt="cluster table de-duplication")
+    # the sizes are counted on that table
+    ld = prog.fn("pyclone.load_data")
+    vc = [c for c in calls(ld.node) if call_name(c).split(".")[-1] == "value_counts"]
+    ok = len(vc) == 1 and "cluster_id" in u(vc[0]) and "cluster_df" in u(vc[0])
+    ctx.check(ok, "E6", "load_data: cluster_sizes = value_counts of cluster_id over the de-duplicated cluster table", ld.where(vc[0]) if vc else ld.where(), "cluster sizes are not cluster_df['cluster_id'].value_counts()", construct=ld.qualname, stmt="cluster_sizes")
+    ctx.analysed(f, ld)
+
+
 def run(ctx):
     ctx.assume("numpy / math primitives (log, exp, log1p, lgamma, linspace, sum, max, isinf) behave as documented; numba compiles the jitted functions with Python semantics")
     ctx.assume("pandas .at[row, column] reads the named column of the named row; value_counts / set_index(...).to_dict() build the per-cluster tables (pandas semantics are not decided here)")
@@ -637,6 +713,7 @@ def run(ctx):
     rule_E3(ctx)
     rule_E4(ctx)
     rule_E5(ctx)
+    rule_E6(ctx)
 
 
 # --------------------------------------------------------------------------- self-test catalogue
@@ -686,6 +763,12 @@ def _v(name, kind, rule, file, old=None, new=None, **kw):
 
 
 SELFTEST = [
+    {"name": "E6-deduplicated-before-projection", "kind": "break", "rule": "E6", "file": _P, "old": 'cluster_df = cluster_df[["mutation_id", "cluster_id", "outlier_prob"]].drop_duplicates()', "new": 'cluster_df = cluster_df.drop_duplicates()[["mutation_id", "cluster_id", "outlier_prob"]]'},
+    {"name": "E6-not-deduplicated", "kind": "break", "rule": "E6", "file": _P, "old": 'cluster_df = cluster_df[["mutation_id", "cluster_id", "outlier_prob"]].drop_duplicates()', "new": 'cluster_df = cluster_df[["mutation_id", "cluster_id", "outlier_prob"]]'},
+    {"name": "E6-deduplicated-per-cluster", "kind": "break", "rule": "E6", "file": _P, "old": 'cluster_df = cluster_df[["mutation_id", "cluster_id", "outlier_prob"]].drop_duplicates()', "new": 'cluster_df = cluster_df[["cluster_id", "outlier_prob"]].drop_duplicates()'},
+    {"name": "E6-sample-column-kept", "kind": "break", "rule": "E6", "file": _P, "old": 'cluster_df = cluster_df[["mutation_id", "cluster_id", "outlier_prob"]].drop_duplicates()', "new": 'cluster_df = cluster_df[["mutation_id", "sample_id", "cluster_id", "outlier_prob"]].drop_duplicates()'},
+    {"name": "benign-E6-two-steps", "kind": "benign", "file": _P, "old": 'cluster_df = cluster_df[["mutation_id", "cluster_id", "outlier_prob"]].drop_duplicates()', "new": 'per_mutation = cluster_df[["mutation_id", "cluster_id", "outlier_prob"]]\n    cluster_df = per_mutation.drop_duplicates()'},
+    {"name": "benign-E6-subset", "kind": "benign", "file": _P, "old": 'cluster_df = cluster_df[["mutation_id", "cluster_id", "outlier_prob"]].drop_duplicates()', "new": 'cluster_df = cluster_df.drop_duplicates(subset=["mutation_id", "cluster_id", "outlier_prob"])'},
     # ---- E1
     _v("E1-swap-ref-var-weights", "break", "E1", _P, **_mix(_BIN_TAIL, "population_prior[1] = t * (1 - f)\n    population_prior[2] = t * f\n", "population_prior[1] = t * f\n    population_prior[2] = t * (1 - f)\n")),
     _v("E1-ref-count-as-successes", "break", "E1", _P, "log_binomial_pdf(data.a + data.b, data.b, e_vaf)", "log_binomial_pdf(data.a + data.b, data.a, e_vaf)"),
